@@ -61,8 +61,10 @@ def structures(tier):
             if tier == 'thorough':
                 sts.append({'name': n, 'after': 'BSC_open'})
     # the same decoder on other words first (tables completed or memoised on first use)
+    # (decoders with hundreds of argument classes are left out in both tiers: the product of two such windows does not
+    # finish - socket_delegate after socket_delegate ran out of a 900 s budget at 21 000 paths)
     for n in sweep.decoder_names():
-        if tier == 'thorough' or sweep.weight({'name': n}) == 1:
+        if sweep.weight({'name': n}) == 1:
             sts.append({'name': n, 'after': n})
     return sts
 
